@@ -49,7 +49,7 @@ def _f9(v):
 
 @matcher("F7_min_successful_failfast_reason")
 def _f7(v):
-    c = v["case"]
+    c = v["case"] if "min" in v["case"] else v["detail"]
     return (v["oracle"] == "C09.reason_consistent" and c.get("min") is not None and c.get("count") is None
             and c.get("pct") in (None, "None") and c.get("f", 0) > 0 and v["detail"].get("reason") == "ALL_COMPLETED")
 
@@ -118,3 +118,8 @@ def _f12a(v):
 @matcher("F12b_track_replay_skipped_when_operation_raises")
 def _f12b(v):
     return v["oracle"] == "C17.new_log_suppressed" and bool(v["detail"].get("errors_delivered_before"))
+
+
+@matcher("F2_path_divergence_rejected_update")
+def _f2c(v):
+    return v["oracle"] == "C11.backend_rejected_update" and _script_has_failing_wfc(v["case"].get("script", [])) and "program" in v["case"]
